@@ -104,7 +104,8 @@ def _run_sym(h, case, payload):
     frontier = []
     try:
         frontier = ctx.explore(lambda c: h.fn(c, case), seeds=seeds,
-                               stop_when_frontier=payload.get('frontier'))
+                               stop_when_frontier=payload.get('frontier'),
+                               yield_after=payload.get('yield_after'))
     except core.Budget as b:
         status, err = 'inconclusive', f"budget: {b}"
     except core.ShimGap:
@@ -274,7 +275,9 @@ class Job:
         return False
 
 
-def run_jobs(jobs, nproc=None):
+def run_jobs(jobs, nproc=None, on_done=None):
+    """run jobs on a pool of forked processes; on_done(job) may return
+    follow-up jobs (used to re-queue unexplored prefixes)"""
     nproc = nproc or int(os.environ.get('SYMX_PROCS', os.cpu_count() or 4))
     pending = list(jobs)
     running = []
@@ -288,6 +291,8 @@ def run_jobs(jobs, nproc=None):
         for j in running:
             if j.poll():
                 done.append(j)
+                if on_done is not None:
+                    pending.extend(on_done(j) or [])
             else:
                 still.append(j)
         running = still
@@ -337,26 +342,28 @@ def main(argv=None):
                                 {'frontier': h.split, 'ci': ci,
                                  'phase': 'split'}))
             else:
-                jobs.append(Job(modname, h, case, 'sym', {'ci': ci}))
-    done = run_jobs(jobs)
-    second = []
+                jobs.append(Job(modname, h, case, 'sym',
+                                {'ci': ci, 'yield_after': 300}))
     results = []
-    for j in done:
+    ncpu = os.cpu_count() or 4
+
+    def requeue(j):
         r = j.result
-        if j.payload.get('phase') == 'split' and r['status'] == 'ok' \
-                and r.get('frontier'):
-            fr = r['frontier']
-            r['frontier'] = []
-            results.append((j.h, j.case, r))
-            k = max(1, len(fr) // (4 * (os.cpu_count() or 4)) + 1)
-            for i in range(0, len(fr), k):
-                second.append(Job(modname, j.h, j.case, 'sym',
-                                  {'seeds': fr[i:i + k],
-                                   'ci': j.payload['ci']}))
-        else:
-            results.append((j.h, j.case, r))
-    for j in run_jobs(second):
-        results.append((j.h, j.case, j.result))
+        if j.mode != 'sym':
+            return []
+        fr = r.get('frontier') if r.get('status') == 'ok' else None
+        r['frontier'] = []
+        results.append((j.h, j.case, r))
+        if not fr:
+            return []
+        # hand the unexplored prefixes out in small batches; a batch that
+        # turns out to be large gives the rest back after yield_after paths
+        k = max(1, len(fr) // (2 * ncpu) + 1)
+        return [Job(modname, j.h, j.case, 'sym',
+                    {'seeds': fr[i:i + k], 'ci': j.payload['ci'],
+                     'yield_after': 150})
+                for i in range(0, len(fr), k)]
+    run_jobs(jobs, on_done=requeue)
 
     # ---- phase 2: differential self-test of the shims
     st_jobs = []
